@@ -168,6 +168,9 @@ class DecoratorManager(ABC):
 
     async def start(self):
         """Start all decorators."""
+        if self.status is DecoratorManagerStatus.STOPPED:
+            # the function was removed before its global context was started: nothing to start
+            return
         if self.status is not DecoratorManagerStatus.VALIDATED:
             raise RuntimeError(f"Starting not valid {self}")
 
